@@ -251,6 +251,14 @@ def gen_motion(ctx):
         a = r.choice([0.0, 0.05, 0.3, 1.0, 2.5, 4.0])
         yield {"kind": "motion", "mode": "rand", "steps": steps, "start": [off, -off, 0.5 * off], "quats": quats,
                "d": d, "a": math.degrees(a) if deg else a, "degrees": deg}
+    # near misses: the path since the last kept pose misses the distance threshold by a relative 2^-18 .. 2^-30 (far above
+    # rounding, far below numpy's isclose defaults): "reached" means >=, exactly. Poses on a line, dyadic coordinates.
+    for k in range(60 if ctx.thorough else 24):
+        D = r.choice([1.0, 2.0, 8.0, 0.5])
+        eps = D * 2.0 ** -r.choice([18, 20, 22, 26, 30])
+        steps = [[r.choice([D - eps, D + eps, D, D / 2, D / 2 - eps, D / 2 + eps / 2, D / 4]), 0.0, 0.0] for _ in range(r.randint(3, 8))]
+        yield {"kind": "motion", "mode": "rand", "steps": steps, "start": [0.0, 0.0, 0.0], "quats": [[1.0, 0.0, 0.0, 0.0]] * (len(steps) + 1),
+               "d": D, "a": 1e6, "degrees": False, "nearmiss": True}
     nlong = 5000 if ctx.thorough else 1000
     for k in range(40 if ctx.thorough else 12):
         n = r.randint(200, nlong)
@@ -340,6 +348,15 @@ def gen_split(ctx):
     yield {"kind": "splitd", "steps": [[6, 8, 0], [3, 4, 0], [3, 4, 0]], "ts": [0.0, 1.0, 2.0, 3.0], "thr": 5.0}
     yield {"kind": "splits", "steps": [[3, 4, 0], [6, 8, 0], [3, 4, 0]], "ts": [0.0, 1.0, 2.0, 3.0], "thr": 5.0}
     yield {"kind": "splits", "steps": [[3, 4, 0], [6, 8, 0]], "ts": [0.0, 1.0, 1.0], "thr": 5.0}
+    for k in range(30 if not ctx.thorough else 200):
+        # near misses: a gap that exceeds / does not exceed the threshold by a relative 2^-18 .. 2^-30 (cut iff strictly greater)
+        thr = r.choice([1.0, 0.5, 2.0])
+        eps = thr * 2.0 ** -r.choice([18, 22, 26, 30])
+        ts, t = [0.0], 0.0
+        for _ in range(r.randint(3, 8)):
+            t += r.choice([thr - eps, thr + eps, thr, thr / 2])
+            ts.append(t)
+        yield {"kind": "splitt", "mode": "grid", "ts": ts, "thr": thr, "nearmiss": True}
     for k in range(6000 if ctx.thorough else 1800):
         kind = ("splitt", "splitd", "splits")[k % 3]
         if k % 5 != 4:      # exact grid
